@@ -116,7 +116,7 @@ func corrRofs(seed uint64, tier string, replay []string) *lib.Result {
 				st.Sample(map[string]string{"line": l, "rofs": rw})
 			}
 			if bad != "" {
-				sig := f[2] + "|" + bad[:20]
+				sig := f[2] + "|" + bad[:min(20, len(bad))]
 				if !seen[sig] {
 					seen[sig] = true
 					res.Mismatches = append(res.Mismatches, lib.Mismatch{Kind: "violation", Class: "rofs." + f[2], What: "through RoFS: " + bad + " at " + l + " -> " + rw,
